@@ -81,7 +81,12 @@ def r2_signed_range(cx):
             if start == 0 and eo[0] == "call" and callee_is(eo[2], "Cursor::position", "Cursor<T>::position"):
                 rng_ok = True
                 pos_call = eo[1]
-        cx.check("range:" + key, rng_ok, site_of(b, bi), "signed data is buffer[0..pos] with pos = cursor.position()")
+        if ro[0] == "rvalue" and ro[2]["rv"]["k"] == "aggregate" and ro[2]["rv"].get("adt", "").endswith("ops::RangeTo"):
+            eo = origin(b, ro[2]["rv"]["ops"][0])
+            if eo[0] == "call" and callee_is(eo[2], "Cursor::position", "Cursor<T>::position"):
+                rng_ok = True
+                pos_call = eo[1]
+        cx.check("range:" + key, rng_ok, site_of(b, bi), "signed data is buffer[0..pos] / buffer[..pos] with pos = cursor.position()")
         if pos_call is None:
             continue
         cfg = b.cfg
